@@ -85,6 +85,12 @@ func (c *RemoteClient) VerifBarrier() {
 	}
 }
 
+// VerifRegisteredCount: requests registered or queued for registration (no synchronisation with the requests
+// goroutine: a snapshot that is exact when that goroutine is idle, as it is when a caller is about to send).
+func (c *RemoteClient) VerifRegisteredCount() int {
+	return len(c.requests) + len(c.addRequestsChannel)
+}
+
 // VerifPending is a registered request as the public calls create it.
 type VerifPending struct {
 	req *request
@@ -148,11 +154,20 @@ func (c *RemoteClient) VerifPrefill(typ uint64, hash bitcoin.Hash32, height int,
 // VerifSendLoop stands in for sendMessages on an established, handshake-complete connection: it
 // takes queued messages, reports them, and acknowledges them as written.
 func (c *RemoteClient) VerifSendLoop(interrupt <-chan interface{}, sent chan<- *Message) {
+	c.VerifSendLoopChecked(interrupt, sent, nil)
+}
+
+// VerifSendLoopChecked: check is called with each message at the moment it is "on the wire", before the
+// sender is told that the write is done (so the harness can look at the client before the caller resumes).
+func (c *RemoteClient) VerifSendLoopChecked(interrupt <-chan interface{}, sent chan<- *Message, check func(*Message)) {
 	for {
 		select {
 		case <-interrupt:
 			return
 		case r := <-c.sendChannel:
+			if check != nil {
+				check(r.msg)
+			}
 			sent <- r.msg
 			if r.response != nil {
 				r.response <- nil
